@@ -1,6 +1,7 @@
 package rtmr
 
 import (
+	"crypto/x509"
 	"errors"
 	"fmt"
 	"time"
@@ -108,7 +109,8 @@ func h18(policyKind int) {
 		pol.TdQuoteBodyOptions.MrTd = vp.Bytes("want_mrtd", 48)
 		pol.HeaderOptions.MinimumQeSvn = vp.U16("min_qesvn")
 	}
-	vopts := &verify.Options{}
+	vopts := &verify.Options{GetCollateral: vp.Bool("getCollateral"), CheckRevocations: vp.Bool("checkRevocations"),
+		Getter: &trust.SimpleHTTPSGetter{}, Now: &verify.TimeSet{}, TrustedRoots: new(x509.CertPool)}
 	opts := &ParseTdxCcelOpts{Validation: pol, Verification: vopts, ExtractOpt: extract.Opts{Loader: loader}}
 	st, err := ParseCcelWithTdQuote(log, table, quote, opts)
 	polErr := validate.TdxQuote(quote, pol)
@@ -118,7 +120,10 @@ func h18(policyKind int) {
 		vp.Reach("rejected-by-policy", vp.And(verifyOK, polErr != nil, err != nil))
 	}
 	vp.Assert("state-xor-error", (st != nil) == (err == nil))
-	vp.Assert("verified-the-given-quote-under-the-given-options", vp.And(verifyCalls == 1, verifiedQuote == any(quote), verifiedOpts == vopts))
+	// (the options may be handed on as they are or as a copy: what counts is every caller-visible field)
+	sameOpts := verifiedOpts != nil && verifiedOpts.GetCollateral == vopts.GetCollateral && verifiedOpts.CheckRevocations == vopts.CheckRevocations &&
+		verifiedOpts.Getter == vopts.Getter && verifiedOpts.Now == vopts.Now && verifiedOpts.TrustedRoots == vopts.TrustedRoots
+	vp.Assert("verified-the-given-quote-under-the-given-options", vp.And(verifyCalls == 1, verifiedQuote == any(quote), sameOpts))
 	vp.Assert("state-only-if-verification-passed", vp.Implies(st != nil, verifyOK))
 	vp.Assert("state-only-if-policy-satisfied", vp.Implies(st != nil, polErr == nil))
 	if st != nil {
